@@ -40,6 +40,7 @@ from ._customization import (
     yields_frames,
 )
 from . import _extract
+from . import _verifhooks
 
 try:
     if not TYPE_CHECKING:
@@ -93,9 +94,13 @@ glue_lock = threading.Lock()
 def add_glue_as_needed(*, _sys_modules_len_cache: list[int] = [0]) -> None:
     if len(sys.modules) == _sys_modules_len_cache[0]:
         return
+    if _verifhooks.ENABLED:
+        _verifhooks.point("fastpath_missed")
     # Use a lock to avoid races between multiple threads trying to extract
     # tracebacks simultaneously
     with glue_lock:
+        if _verifhooks.ENABLED:
+            _verifhooks.point("lock_acquired")
         module_names = tuple(sys.modules)
         for module_name in module_names:
             builtin_fn = builtin_glue_pending.pop(module_name, None)
@@ -106,6 +111,14 @@ def add_glue_as_needed(*, _sys_modules_len_cache: list[int] = [0]) -> None:
             except Exception:  # module disappeared, doesn't have a dict, etc
                 module_fn = None
             try:
+                if _verifhooks.ENABLED and (
+                    module_fn is not None or builtin_fn is not None
+                ):
+                    _verifhooks.point(
+                        "before_glue_call",
+                        module_name,
+                        "module" if module_fn is not None else "builtin",
+                    )
                 # Prefer the module-supplied glue over our builtin version
                 # in case both are present
                 if module_fn is not None:
@@ -128,6 +141,10 @@ def add_glue_as_needed(*, _sys_modules_len_cache: list[int] = [0]) -> None:
         # Only update the length cache if we visited every module (rather
         # than bailing out with an exception)
         _sys_modules_len_cache[0] = len(module_names)
+        if _verifhooks.ENABLED:
+            _verifhooks.point("scan_done")
+    if _verifhooks.ENABLED:
+        _verifhooks.point("lock_released")
 
 
 functools_singledispatch_wrapper = get_code(functools.singledispatch, "wrapper")
@@ -487,7 +504,11 @@ def glue_threading() -> None:
         # its frame, then it's possible that its identity was reused, and
         # we shouldn't trust the frame we get.
         was_alive = thread.is_alive()
+        if _verifhooks.ENABLED:
+            _verifhooks.point("after_was_alive", thread)
         inner_frame = sys._current_frames().get(thread.ident)  # type: ignore
+        if _verifhooks.ENABLED:
+            _verifhooks.point("after_current_frames", thread, inner_frame)
         if inner_frame is None or not thread.is_alive() or not was_alive:
             return []
         return StackSlice(inner=inner_frame)
